@@ -1242,10 +1242,10 @@ def rule_sole_candidate(ctx: Ctx, prog: Program) -> None:
                             t_, neg = t_.operand, not neg
                         if not (isinstance(t_, ast.Compare) and len(t_.ops) == 1):
                             continue
-                        if not neg:
+                        if not st_.orelse and len(st_.body) == 1 and isinstance(st_.body[0], ast.Continue):
+                            cands.append((st_, t_, blk[k_ + 1:]))  # (only the operands of the test are used below, not its direction)
+                        elif not neg:
                             cands.append((st_, t_, st_.body))
-                        elif not st_.orelse and len(st_.body) == 1 and isinstance(st_.body[0], ast.Continue):
-                            cands.append((st_, t_, blk[k_ + 1:]))
             for node, cmp_, stmts_ in cands:
                 ups = [_unit_step(s_)[0] for s_ in stmts_ if _unit_step(s_) and _unit_step(s_)[1] == 1]
                 recs = [s_.targets[0].id for s_ in stmts_ if isinstance(s_, ast.Assign) and len(s_.targets) == 1 and isinstance(s_.targets[0], ast.Name)
